@@ -81,9 +81,7 @@ impl<'de> Read for SliceRead<'de> {
 		I: VarInt,
 	{
 		match I::decode_var(self.slice) {
-			None => Err(DeError::new(
-				"All bytes have MSB set when decoding varint (Reached EOF)",
-			)),
+			None => Err(varint_decode_error(self.slice)),
 			Some((val, read)) => {
 				self.slice = &self.slice[read..];
 				Ok(val)
@@ -132,6 +130,15 @@ impl std::io::BufRead for SliceRead<'_> {
 
 	fn consume(&mut self, amt: usize) {
 		self.slice.consume(amt)
+	}
+}
+
+/// `available` is all that was available to decode the varint from
+fn varint_decode_error(available: &[u8]) -> DeError {
+	if available.len() < 10 && available.iter().all(|&b| b & 0x80 != 0) {
+		DeError::unexpected_eof_msg("All bytes have MSB set when decoding varint (Reached EOF)")
+	} else {
+		DeError::new("Invalid varint (too long, or out of bounds of the expected integer type)")
 	}
 }
 
@@ -200,9 +207,7 @@ impl<R: std::io::BufRead> Read for ReaderRead<R> {
 				}
 				match I::decode_var(&varint_buf[..len]) {
 					Some((val, _)) => Ok(val),
-					None => Err(DeError::new(
-						"All bytes have MSB set when decoding varint (Reached EOF)",
-					)),
+					None => Err(varint_decode_error(&varint_buf[..len])),
 				}
 			}
 			Some((val, read)) => {
